@@ -43,6 +43,19 @@ void h_poll_set_new_evt(void) {
     V_COVER("rm-userfd", vin_flag && vin_type == M_SRC_TYPE_FD && vin_registered); V_COVER("rm-unregistered", vin_flag && !vin_registered); V_COVER("add-oneshot", !vin_flag && (vin_sflags & M_SRC_ONESHOT) && r == 0);
     V_CANARY();
 }
+#elif defined(V_CTXSRC_UNIT)
+void h_deregister_ctx_src(void) {
+    build_src();
+    static struct epoll_event evobj;
+    V_ASSUME(vin_type == M_SRC_TYPE_TMR && !vin_has_mod);
+    if (vin_registered) g_psrc->ev = &evobj;
+    g_ctx->tick.src = vin_flag ? g_psrc : NULL; g_ctx->state = vin_ctx_state;
+    deregister_ctx_src(g_ctx, vin_userfd ? &g_ctx->tick.src : NULL);
+    V_COVER("dereg-tick-while-looping", vin_flag && vin_userfd && vin_registered && vin_ctx_state == M_CTX_LOOPING);
+    V_COVER("dereg-tick-registered-while-idle", vin_flag && vin_userfd && vin_registered && vin_ctx_state == M_CTX_IDLE);
+    V_COVER("dereg-no-tick", !vin_flag && vin_userfd);
+    V_CANARY();
+}
 #else
 void h_src_priv_dtor(void) {
     build_src();
